@@ -178,7 +178,14 @@ func (w *world) validateTransactions() ([]row, []call, []entry) {
 		})
 	}
 	for _, s := range body.Body.List {
-		findGo(s, false)
+		switch x := s.(type) {
+		case *ast.ForStmt:
+			findGo(x.Body, true)
+		case *ast.RangeStmt:
+			findGo(x.Body, true)
+		default:
+			findGo(s, false)
+		}
 	}
 	var entries []entry
 	for _, g := range gors {
@@ -228,7 +235,7 @@ func (v *vtWalker) emit(pos token.Pos, name string, write bool) {
 		ls = append(ls, lk{Name: n, Excl: true})
 	}
 	sort.Slice(ls, func(i, j int) bool { return ls[i].Name < ls[j].Name })
-	r := row{Fn: v.fnName, Loc: "VT." + name, Write: write, Locks: ls, File: file, Line: line}
+	r := row{Fn: v.fnName, Loc: "VT." + name, Write: write, Locks: ls, File: file, Line: line, Own: true}
 	for _, o := range v.rows {
 		if o.Fn == r.Fn && o.Loc == r.Loc && o.Write == r.Write && o.Line == r.Line && len(o.Locks) == len(r.Locks) {
 			return
